@@ -12,39 +12,35 @@ From MSDM Require Import base.Num base.NumInst model.Dist theory.DistTheory theo
 Import ListNotations.
 Local Open Scope R_scope.
 
-(* marginalising preserves total mass ... *)
-Theorem C11_marginalize_mass :
-  forall (K K2 : Type) (keq2 : K2 -> K2 -> bool) (f : K -> K2) (d : list (K * R)),
-  mass (marginalize keq2 f d) = mass d.
-Proof. exact @marginalize_mass. Qed.
-Print Assumptions C11_marginalize_mass.
-
-(* ... and sums the probabilities of merged events *)
-Theorem C11_marginalize_prob :
+(* marginalising preserves total mass and sums the probabilities of merged events *)
+Theorem C11_marginalize :
   forall (K K2 : Type) (keq : K -> K -> bool) (keq2 : K2 -> K2 -> bool),
   (forall a b : K, keq a b = true <-> a = b) -> (forall a b : K2, keq2 a b = true <-> a = b) ->
-  forall (f : K -> K2) (d : list (K * R)) (y : K2), NoDup (keys d) ->
-  prob keq2 (marginalize keq2 f d) y =
-  Rsum (map (prob keq d) (filter (fun x : K => keq2 (f x) y) (keys d))).
-Proof. exact @marginalize_prob. Qed.
-Print Assumptions C11_marginalize_prob.
+  (forall (f : K -> K2) (d : list (K * R)), mass (marginalize keq2 f d) = mass d) /\
+  (forall (f : K -> K2) (d : list (K * R)) (y : K2), NoDup (keys d) ->
+     prob keq2 (marginalize keq2 f d) y =
+     Rsum (map (prob keq d) (filter (fun x : K => keq2 (f x) y) (keys d)))).
+Proof.
+  intros K K2 keq keq2 H H2.
+  exact (conj (marginalize_mass keq2) (marginalize_prob keq keq2 H H2)).
+Qed.
+Print Assumptions C11_marginalize.
 
 (* chaining is the law of total probability; stochastic kernels preserve mass *)
-Theorem C11_chain_total_prob :
+Theorem C11_chain :
   forall (K K2 : Type) (keq : K -> K -> bool) (keq2 : K2 -> K2 -> bool),
   (forall a b : K, keq a b = true <-> a = b) -> (forall a b : K2, keq2 a b = true <-> a = b) ->
-  forall (kern : K -> list (K2 * R)) (d : list (K * R)) (y : K2),
-  NoDup (keys d) -> (forall x : K, In x (keys d) -> NoDup (keys (kern x))) ->
-  prob keq2 (chain keq2 kern d) y =
-  Rsum (map (fun x : K => prob keq d x * prob keq2 (kern x) y) (keys d)).
-Proof. exact @chain_total_prob. Qed.
-Print Assumptions C11_chain_total_prob.
-
-Theorem C11_chain_mass :
-  forall (K K2 : Type) (keq2 : K2 -> K2 -> bool) (kern : K -> list (K2 * R)) (d : list (K * R)),
-  (forall x : K, In x (keys d) -> mass (kern x) = 1) -> mass (chain keq2 kern d) = mass d.
-Proof. exact @chain_mass_stochastic. Qed.
-Print Assumptions C11_chain_mass.
+  (forall (kern : K -> list (K2 * R)) (d : list (K * R)) (y : K2),
+     NoDup (keys d) -> (forall x : K, In x (keys d) -> NoDup (keys (kern x))) ->
+     prob keq2 (chain keq2 kern d) y =
+     Rsum (map (fun x : K => prob keq d x * prob keq2 (kern x) y) (keys d))) /\
+  (forall (kern : K -> list (K2 * R)) (d : list (K * R)),
+     (forall x : K, In x (keys d) -> mass (kern x) = 1) -> mass (chain keq2 kern d) = mass d).
+Proof.
+  intros K K2 keq keq2 H H2.
+  exact (conj (chain_total_prob keq keq2 H H2) (chain_mass_stochastic keq2)).
+Qed.
+Print Assumptions C11_chain.
 
 (* conditioning on a positive-mass event is Bayes' rule, is normalised, and drops exactly the
    events of likelihood 0 from the support *)
@@ -59,41 +55,33 @@ Theorem C11_condition_bayes :
 Proof. exact @condition_bayes. Qed.
 Print Assumptions C11_condition_bayes.
 
-(* joint is the product measure (duplicate-free supports) *)
-Theorem C11_joint_product :
+(* joint is the product measure (duplicate-free supports); stated as is: with duplicated events the
+   dict comprehension keeps the LAST product per key *)
+Theorem C11_joint :
   forall (K K2 : Type) (keq : K -> K -> bool) (keq2 : K2 -> K2 -> bool),
   (forall a b : K, keq a b = true <-> a = b) -> (forall a b : K2, keq2 a b = true <-> a = b) ->
-  forall (d1 : list (K * R)) (d2 : list (K2 * R)), NoDup (keys d1) -> NoDup (keys d2) ->
-  (forall (x : K) (y : K2),
-     prob (pair_eqb keq keq2) (joint keq keq2 d1 d2) (x, y) = prob keq d1 x * prob keq2 d2 y) /\
-  mass (joint keq keq2 d1 d2) = mass d1 * mass d2 /\
-  keys (joint keq keq2 d1 d2) = list_prod (keys d1) (keys d2).
-Proof. exact @joint_product. Qed.
-Print Assumptions C11_joint_product.
-
-(* stated as is: with duplicated events the comprehension keeps the LAST product per key *)
-Theorem C11_joint_overwrite :
-  forall (K K2 : Type) (keq : K -> K -> bool) (keq2 : K2 -> K2 -> bool),
-  (forall a b : K, keq a b = true <-> a = b) -> (forall a b : K2, keq2 a b = true <-> a = b) ->
-  forall (d1 : list (K * R)) (d2 : list (K2 * R)) (k : K * K2),
-  dget (pair_eqb keq keq2) (joint keq keq2 d1 d2) k =
-  dget (pair_eqb keq keq2) (rev (joint_list d1 d2)) k.
-Proof. exact @joint_overwrite. Qed.
-Print Assumptions C11_joint_overwrite.
+  (forall (d1 : list (K * R)) (d2 : list (K2 * R)), NoDup (keys d1) -> NoDup (keys d2) ->
+     (forall (x : K) (y : K2),
+        prob (pair_eqb keq keq2) (joint keq keq2 d1 d2) (x, y) = prob keq d1 x * prob keq2 d2 y) /\
+     mass (joint keq keq2 d1 d2) = mass d1 * mass d2 /\
+     keys (joint keq keq2 d1 d2) = list_prod (keys d1) (keys d2)) /\
+  (forall (d1 : list (K * R)) (d2 : list (K2 * R)) (k : K * K2),
+     dget (pair_eqb keq keq2) (joint keq keq2 d1 d2) k =
+     dget (pair_eqb keq keq2) (rev (joint_list d1 d2)) k).
+Proof.
+  intros K K2 keq keq2 H H2.
+  exact (conj (joint_product keq keq2 H H2) (joint_overwrite keq keq2 H H2)).
+Qed.
+Print Assumptions C11_joint.
 
 (* scaled mixtures add pointwise:  (d1 * a | d2 * b) *)
-Theorem C11_mix_pointwise :
+Theorem C11_mix :
   forall (K : Type) (keq : K -> K -> bool), (forall a b : K, keq a b = true <-> a = b) ->
-  forall (d1 d2 : list (K * R)) (a b : R) (x : K), NoDup (keys d1) -> NoDup (keys d2) ->
-  prob keq (mix keq (scale keq d1 a) (scale keq d2 b)) x = prob keq d1 x * a + prob keq d2 x * b.
-Proof. exact @mix_pointwise. Qed.
-Print Assumptions C11_mix_pointwise.
-
-Theorem C11_mix_mass :
-  forall (K : Type) (keq : K -> K -> bool) (d1 d2 : list (K * R)),
-  mass (mix keq d1 d2) = mass d1 + mass d2.
-Proof. exact @mix_mass. Qed.
-Print Assumptions C11_mix_mass.
+  (forall (d1 d2 : list (K * R)) (a b : R) (x : K), NoDup (keys d1) -> NoDup (keys d2) ->
+     prob keq (mix keq (scale keq d1 a) (scale keq d2 b)) x = prob keq d1 x * a + prob keq d2 x * b) /\
+  (forall (d1 d2 : list (K * R)), mass (mix keq d1 d2) = mass d1 + mass d2).
+Proof. intros K keq H. exact (conj (mix_pointwise keq H) (mix_mass keq)). Qed.
+Print Assumptions C11_mix.
 
 (* conjunction is the renormalised pointwise product on the common support, for EVERY enumeration
    es of the common support (msdm iterates a Python set, i.e. in hash order) *)
@@ -125,44 +113,34 @@ Theorem C11_expectation_def :
 Proof. exact @expectation_def. Qed.
 Print Assumptions C11_expectation_def.
 
-(* normalise divides by the total *)
-Theorem C11_normalize_def :
+(* normalise divides by the total; is_normalized is math.isclose(total, 1) *)
+Theorem C11_normalize :
   forall (K : Type) (keq : K -> K -> bool), (forall a b : K, keq a b = true <-> a = b) ->
-  forall d : list (K * R), NoDup (keys d) -> mass d <> 0 ->
-  (forall x : K, prob keq (normalize keq d) x = prob keq d x / mass d) /\
-  mass (normalize keq d) = 1 /\ keys (normalize keq d) = keys d.
-Proof. exact @normalize_def. Qed.
-Print Assumptions C11_normalize_def.
+  (forall d : list (K * R), NoDup (keys d) -> mass d <> 0 ->
+     (forall x : K, prob keq (normalize keq d) x = prob keq d x / mass d) /\
+     mass (normalize keq d) = 1 /\ keys (normalize keq d) = keys d) /\
+  (forall (rtol atol : R) (d : list (K * R)),
+     is_normalized rtol atol d = true <->
+     Rabs (mass d - 1) <= Rmax (rtol * Rmax (Rabs (mass d)) (Rabs 1)) atol).
+Proof. intros K keq H. exact (conj (normalize_def keq H) (@is_normalized_spec K)). Qed.
+Print Assumptions C11_normalize.
 
-Theorem C11_is_normalized_spec :
-  forall (K : Type) (rtol atol : R) (d : list (K * R)),
-  is_normalized rtol atol d = true <->
-  Rabs (mass d - 1) <= Rmax (rtol * Rmax (Rabs (mass d)) (Rabs 1)) atol.
-Proof. exact @is_normalized_spec. Qed.
-Print Assumptions C11_is_normalized_spec.
-
-(* softmax is normalised and shift-invariant *)
-Theorem C11_softmax_normalised :
-  forall (K : Type) (scores : list (K * R)), scores <> [] -> mass (softmax scores) = 1.
-Proof. exact @softmax_normalised. Qed.
-Print Assumptions C11_softmax_normalised.
-
-Theorem C11_softmax_shift_invariant :
-  forall (K : Type) (r : R) (scores : list (K * R)),
-  softmax (shift_scores r scores) = softmax scores.
-Proof. exact @softmax_shift_invariant. Qed.
-Print Assumptions C11_softmax_shift_invariant.
-
-Theorem C11_softmax_prob :
+(* softmax is normalised and shift-invariant, and is exp(s)/sum exp *)
+Theorem C11_softmax :
   forall (K : Type) (keq : K -> K -> bool), (forall a b : K, keq a b = true <-> a = b) ->
-  forall (scores : list (K * R)) (e : K), scores <> [] ->
-  prob keq (softmax scores) e =
-  match dget keq scores e with
-  | Some s => exp s / Rsum (map (fun kv : K * R => exp (snd kv)) scores)
-  | None => 0
-  end.
-Proof. exact @softmax_prob. Qed.
-Print Assumptions C11_softmax_prob.
+  (forall scores : list (K * R), scores <> [] -> mass (softmax scores) = 1) /\
+  (forall (r : R) (scores : list (K * R)), softmax (shift_scores r scores) = softmax scores) /\
+  (forall (scores : list (K * R)) (e : K), scores <> [] ->
+     prob keq (softmax scores) e =
+     match dget keq scores e with
+     | Some s => exp s / Rsum (map (fun kv : K * R => exp (snd kv)) scores)
+     | None => 0
+     end).
+Proof.
+  intros K keq H.
+  exact (conj (@softmax_normalised K) (conj (@softmax_shift_invariant K) (softmax_prob keq H))).
+Qed.
+Print Assumptions C11_softmax.
 
 (* every kind's own prob method is the lookup in its items(); the same measure written as a
    uniform / deterministic / dict / table distribution has the same items(), hence the same result
@@ -202,19 +180,15 @@ Theorem C11_sample_kinds_positive :
 Proof. exact @ksample_positive. Qed.
 Print Assumptions C11_sample_kinds_positive.
 
-(* a one-point distribution returns its point whatever the generator says *)
-Theorem C11_sample_single :
-  forall (K : Type) (keq : K -> K -> bool) (d : list (K * R)) (e : K) (u : R),
-  keys d = [e] -> sample keq d u = Some e.
-Proof. exact @sample_single. Qed.
-Print Assumptions C11_sample_single.
-
-(* equal generator streams (equally seeded generators) give identical sample sequences *)
-Theorem C11_sample_deterministic :
-  forall (K : Type) (keq : K -> K -> bool) (d : list (K * R)) (us1 us2 : list R),
-  us1 = us2 -> sample_seq keq d us1 = sample_seq keq d us2.
-Proof. exact @sample_seq_deterministic. Qed.
-Print Assumptions C11_sample_deterministic.
+(* a one-point distribution returns its point whatever the generator says; equal generator streams
+   (equally seeded generators) give identical sample sequences *)
+Theorem C11_sample_single_deterministic :
+  forall (K : Type) (keq : K -> K -> bool),
+  (forall (d : list (K * R)) (e : K) (u : R), keys d = [e] -> sample keq d u = Some e) /\
+  (forall (d : list (K * R)) (us1 us2 : list R),
+     us1 = us2 -> sample_seq keq d us1 = sample_seq keq d us2).
+Proof. intros K keq. exact (conj (sample_single keq) (sample_seq_deterministic keq)). Qed.
+Print Assumptions C11_sample_single_deterministic.
 
 (* executed = proved: what the harness evaluates on Q is the R function of the theorems above *)
 Theorem C11_transfer :
